@@ -266,6 +266,15 @@ def trim(cfg, l, p, is_set, allow):
 
 lines = []
 n_hist = collections.Counter()
+P_SUSPEND = 0.06    # probability that the next step of a history is pause + resume
+P_PRINT = 0.08      # probability that the next step is text drawn between pen requests (tickit_term_printf: it shares the
+                    # terminal's scratch buffer with the xterm driver's SGR string)
+WORDCH = "abcdefghijklmnopqrstuvwxyzABCDEFGHIJKLMNOPQRSTUVWXYZ0123456789"
+
+
+def word():
+    n = rng.choice([1, 2, 3, 5, 8, 13, 21, 34, 55, 60])
+    return "".join(rng.choice(WORDCH) for _ in range(n))
 
 
 GROUP = 1           # logical histories per protocol history (`renew` = fresh terminal inside a history; the framework now batches forks itself)
@@ -319,13 +328,48 @@ def history(cfg, nops, allow, want=None, init=None, script=None):
         l, prev = total(init), init
         stats["start:pen-in-force"] += 1
     script = list(script or [])
+    after_suspend = 0
     for it in range(nops + len(script)):
         if script:
             is_set, p, kind = script.pop(0)
             if callable(p):
                 p = p(l)
+        elif not allow and rng.random() < P_SUSPEND:
+            is_set, p, kind = None, None, "suspend"
+        elif not allow and rng.random() < P_PRINT:
+            w = word()
+            stats["op:print"] += 1
+            stats["print:len<=8" if len(w) <= 8 else "print:len>8"] += 1
+            out.append("print " + w)
+            continue
+        elif after_suspend and l and rng.random() < 0.7:
+            # what follows a suspension: mostly requests that do not change the pen (they are skipped as 'already set', so
+            # only the bytes of resume can have put the attributes back) or change exactly one attribute
+            r = rng.random()
+            if r < 0.4:
+                ks = [k for k in l if rng.random() < 0.5]
+                is_set, p, kind = False, {k: l[k] for k in ATTRS if k in ks}, "subset-of-logical"
+            elif r < 0.6:
+                is_set, p, kind = True, dict(l), "logical-again"
+            else:
+                k = rng.choice(ATTRS)
+                v = value(cfg, k, allow)
+                is_set = rng.random() < 0.5
+                p, kind = (overlay(total(l), {k: v}) if is_set else {k: v}), "single-effective-change"
         else:
             is_set, p, kind = next_op(cfg, l, prev, allow)
+        if kind == "suspend":
+            # tickit_term_pause + tickit_term_resume: not a pen request, the logical pen stays
+            nd = [k for k in l if l[k] != DEFAULT[k] and not (k in ("fg", "bg") and l[k][0] < 0) and not (k == "af" and l[k] in (-1, 0))]
+            stats["op:suspend"] += 1
+            stats["suspend:" + ("pen-default" if not nd else "pen-nondefault")] += 1
+            if after_suspend: stats["suspend:twice-in-a-row"] += 1
+            out.append("suspend")
+            after_suspend = 3
+            continue
+        if after_suspend:
+            stats["after-suspend:" + kind] += 1
+            after_suspend -= 1
         p = trim(cfg, l, p, is_set, allow)
         if p is None:
             continue
@@ -381,11 +425,13 @@ def exhaustive():
            [{"kind": "g", "colors": n, "rgb8": n == 256, "colon": n >= 88} for n in (8, 16, 88, 256)]
     skipped = 0
     for cfg in cfgs:
-        ops = [(s, p) for p in basis(cfg) for s in (True, False)]
+        ops = [(s, p) for p in basis(cfg) for s in (True, False)] + [(None, None)]
         for n in (1, 2, 3):
             for h in itertools.product(ops, repeat=n):
                 l, ok, out = {}, True, []
                 for (s, p) in h:
+                    if s is None:
+                        out.append("suspend"); continue
                     if triggers(cfg, l, p, s):
                         ok = False; break
                     out.append(("setpen " if s else "chpen ") + pen_text(p))
@@ -402,7 +448,7 @@ if a.tier == "exhaustive":
     info = exhaustive()
     open(a.out, "w").write("\n".join(lines) + "\n")
     print(json.dumps({"ops": len(lines), "histories": sum(n_hist.values()), "by_config": dict(n_hist), **info,
-                      "exhaustive_bound": "every history of <= 3 requests (setpen|chpen) over a 15-pen basis, 4 capability combinations of the xterm driver and 4 colour counts of the harness driver; histories that run into a known finding are left to the dedicated probes"}))
+                      "exhaustive_bound": "every history of <= 3 steps (setpen|chpen over a 15-pen basis, or suspend = pause + resume), 4 capability combinations of the xterm driver and 4 colour counts of the harness driver; histories that run into a known finding are left to the dedicated probes"}))
     raise SystemExit(0)
 
 N = 2200 if a.tier == "quick" else 22000
@@ -415,6 +461,15 @@ for r in (0, 1):
             history({"kind": "x", "colors": 256, "rgb8": r, "colon": c, "how": how}, 14, set())
 for n in (8, 16, 88, 256):
     history({"kind": "g", "colors": n, "rgb8": rng.randint(0, 1), "colon": rng.randint(0, 1)}, 14, set())
+# the program is stopped and continued while a non-default pen is in force, then asks for what it already has
+SUSP = [(None, None, "suspend"),
+        (False, lambda l: {k: l[k] for k in ATTRS if k in l and rng.random() < 0.5}, "subset-of-logical"),
+        (True, lambda l: dict(l), "logical-again"),
+        (None, None, "suspend")]
+for cfg in [{"kind": "x", "colors": 256, "rgb8": r, "colon": c, "how": how} for r in (0, 1) for c in (0, 1) for how in ("reply", "ctl")] + \
+           [{"kind": "g", "colors": n, "rgb8": rng.randint(0, 1), "colon": rng.randint(0, 1)} for n in (8, 16, 88, 256)]:
+    history(cfg, 3, set(), init=nondefault_pen(cfg), script=SUSP)
+    history(cfg, 2, set(), script=[(rng.random() < 0.5, heavy_pen(cfg, set()), "heavy")] + SUSP[:2])
 for _ in range(N):
     cfg = random_cfg()
     history(cfg, rng.choice([3, 6, 10, 16, 24]), set(), init=nondefault_pen(cfg) if rng.random() < 0.25 else None)
